@@ -49,12 +49,15 @@ func (p *Fixed) AskedSorted() []string {
 
 // Gen generates models. Sizes are upper bounds for lists.
 type Gen struct {
-	R        *gen.R
-	P        Presence
-	MaxTags  int
-	MaxList  int  // way nodes, members, comments, updates
-	Unknown  bool // add unknown keys
-	Exotic   bool // ids beyond 2^40 / negative ids, odd floats, control characters
+	R       *gen.R
+	P       Presence
+	MaxTags int
+	MaxList int  // way nodes, members, comments, updates
+	Unknown bool // add unknown keys
+	Exotic  bool // ids beyond 2^40 / negative ids, odd floats, control characters
+	// ZeroP is the probability with which a value that is written is a boundary value: id,
+	// count, version or coordinate 0, empty string, empty list, bounds object without members.
+	ZeroP    float64
 	usedKeys int
 }
 
@@ -65,10 +68,24 @@ func NewGen(r *gen.R, p Presence) *Gen {
 
 func (g *Gen) has(f string) bool { return g.P.Has(f) }
 
+// zero says whether the next written value is to be a boundary (zero / empty) value.
+func (g *Gen) zero() bool { return g.ZeroP > 0 && g.R.Chance(g.ZeroP) }
+
+// count is a list length in 0..max (0 when a boundary value is due).
+func (g *Gen) count(max int) int {
+	if g.zero() {
+		return 0
+	}
+	return g.R.Intn(max + 1)
+}
+
 var oddRunes = []rune{0x00, 0x01, 0x1f, 0x7f, 0x2028, 0x2029, 0xfeff, 0xfffd, '\b', '\f'}
 
 // Str is a valid UTF-8 string, sometimes with tab / newline and (Exotic) control characters.
 func (g *Gen) Str(max int) string {
+	if g.zero() {
+		return ""
+	}
 	s := g.R.StrWS(max)
 	if g.Exotic && g.R.Chance(0.15) {
 		rs := []rune(s)
@@ -83,6 +100,9 @@ func (g *Gen) strp(max int) *string { s := g.Str(max); return &s }
 
 // ID is an object id: mostly realistic, sometimes 0, negative (editor placeholders) or huge.
 func (g *Gen) ID() int64 {
+	if g.zero() {
+		return 0
+	}
 	switch x := g.R.Intn(20); {
 	case x == 0:
 		return g.R.Int64Range(0, 3)
@@ -96,14 +116,20 @@ func (g *Gen) ID() int64 {
 	return g.R.Int64Range(1, 1<<34)
 }
 
-func (g *Gen) intp(lo, hi int64) *int64 { v := g.R.Int64Range(lo, hi); return &v }
-func (g *Gen) boolp() *bool             { v := g.R.Bool(); return &v }
+func (g *Gen) intp(lo, hi int64) *int64 {
+	v := g.R.Int64Range(lo, hi)
+	if lo <= 0 && g.zero() {
+		v = 0
+	}
+	return &v
+}
+func (g *Gen) boolp() *bool { v := g.R.Bool(); return &v }
 
 // Coord is a latitude / longitude style float with a random equivalent spelling.
 func (g *Gen) Coord(lim int) Float {
 	var v float64
 	switch x := g.R.Intn(12); {
-	case x == 0:
+	case x == 0 || g.zero():
 		v = 0
 	case x == 1:
 		v = float64(g.R.Range(-lim, lim))
@@ -140,7 +166,7 @@ var tagKeys = []string{"name", "highway", "type", "id", "nodes", "members", "tag
 
 // Tags is a list of 0..MaxTags tags with unique keys.
 func (g *Gen) Tags() []Tag {
-	n := g.R.Intn(g.MaxTags + 1)
+	n := g.count(g.MaxTags)
 	seen := map[string]bool{}
 	var out []Tag
 	for len(out) < n {
@@ -276,6 +302,16 @@ func (g *Gen) meta(kind string) Meta {
 // Bounds generates a bounds object for the named part.
 func (g *Gen) Bounds(part string) *Bounds {
 	b := &Bounds{MinLat: g.Coord(90), MaxLat: g.Coord(90), MinLon: g.Coord(180), MaxLon: g.Coord(180), LowerKeys: g.R.Bool()}
+	if g.ZeroP > 0 {
+		// boundary spellings: members left out (their value is then 0), down to "bounds": {}
+		all := g.zero()
+		for i, f := range []*Float{&b.MinLat, &b.MaxLat, &b.MinLon, &b.MaxLon} {
+			if all || g.R.Chance(g.ZeroP/3) {
+				b.Omit[i] = true
+				*f = NewFloat(0, 0)
+			}
+		}
+	}
 	b.Extra = g.Extra(part + ".unknown")
 	return b
 }
@@ -284,8 +320,12 @@ func (g *Gen) updates(kind string) []Update {
 	if !g.has(kind + ".updates") {
 		return nil
 	}
-	var us []Update
-	for i, n := 0, g.R.Range(1, g.MaxList); i < n; i++ {
+	us := []Update{}
+	n := g.R.Range(1, g.MaxList)
+	if g.zero() {
+		n = 0 // "updates": []
+	}
+	for i := 0; i < n; i++ {
 		u := Update{Index: g.R.Int64Range(0, 50), Version: g.R.Int64Range(0, 500), Timestamp: g.Time()}
 		if g.has("update.changeset") {
 			u.Changeset = g.intp(0, 1<<31)
@@ -303,7 +343,7 @@ func (g *Gen) updates(kind string) []Update {
 }
 
 func (g *Gen) ids() []int64 {
-	n := g.R.Intn(g.MaxList + 1)
+	n := g.count(g.MaxList)
 	ids := make([]int64, 0, n)
 	for i := 0; i < n; i++ {
 		ids = append(ids, g.ID())
@@ -379,7 +419,7 @@ func (g *Gen) Relation() *Relation {
 	r.Meta = g.meta("relation")
 	if g.has("relation.members") {
 		r.HasMembers = true
-		for i, n := 0, g.R.Intn(g.MaxList+1); i < n; i++ {
+		for i, n := 0, g.count(g.MaxList); i < n; i++ {
 			r.Members = append(r.Members, g.Member())
 		}
 	}
@@ -423,7 +463,8 @@ func (g *Gen) Changeset() *Changeset {
 	}
 	if g.has("changeset.discussion") {
 		c.HasDiscussion = true
-		for i, n := 0, g.R.Intn(g.MaxList+1); i < n; i++ {
+		c.DiscussionBare = g.zero()
+		for i, n := 0, g.count(g.MaxList); i < n && !c.DiscussionBare; i++ {
 			cm := Comment{}
 			if g.has("cscomment.user") {
 				cm.User = g.strp(10)
@@ -483,7 +524,7 @@ func (g *Gen) Note() *Note {
 	}
 	if g.has("note.comments") {
 		n.HasComments = true
-		for i, m := 0, g.R.Intn(g.MaxList+1); i < m; i++ {
+		for i, m := 0, g.count(g.MaxList); i < m; i++ {
 			c := NoteComment{}
 			if g.has("notecomment.date") {
 				if g.R.Chance(0.2) {
@@ -544,7 +585,7 @@ func (g *Gen) User() *User {
 	}
 	if g.has("user.languages") {
 		u.HasLanguages = true
-		for i, n := 0, g.R.Intn(4); i < n; i++ {
+		for i, n := 0, g.count(3); i < n; i++ {
 			u.Languages = append(u.Languages, g.R.PickS("en", "de", "en-US", "fr", "pt-BR", "zh"))
 		}
 	}
